@@ -117,6 +117,9 @@ std::string sweep_one(Ctx& c, const TypeOps& t, size_t vi, size_t fi, int b, boo
 std::string int_sweep_one(Ctx& c, const TypeOps& t, uint64_t u);
 std::string fuzz_one(Ctx& c, const TypeOps& t, bool is02, const uint8_t* data, size_t size, bool* accepted, bool* noncanonical);
 
+// Sets the raw-size test hook of one always-encoded bounded logical buffer to an out-of-range value.
+bool break_lbuf(const Schema& s, Value& v, Tape& t);
+
 // Writer-side view of a table schema: deleted entries become active and an unknown entry is
 // appended, so that reference encodings contain entries the reading definition skips.
 SchemaP writer_variant(const Schema& s, Tape& t, bool* changed);
